@@ -25,7 +25,7 @@ C_LIGHT = 299792458.0
 
 def REQUIRED(tier):
     return ["kernel_direct", "filterbank_fold", "timeseries_fold", "pulse_train", "conservation_checks", "cell_count_checks", "gulp_identity_checks",
-            "regime:gulp<2*maxdelay", "regime:nbands_not_dividing", "regime:accel!=0", "regime:multi_block", "canary_audits"]
+            "regime:gulp<2*maxdelay", "regime:nbands_not_dividing", "regime:accel!=0", "regime:multi_block", "canary_audits", "regime:multi_file_input"]
 
 
 def cases(tier, seed):
@@ -108,16 +108,23 @@ def run_case(case, ctx):
     fch1, foff = 1500.0, -float(rng.choice([1.0, 10.0, 25.0]))
     X = sigfile.random_samples(rng, N, nch, nbits, small=True)
     Xf = X.astype(np.float64)
-    p = os.path.join(ctx.tmp, "c11.fil")
-    sigfile.write_fil(p, X, nbits, fch1=fch1, foff=foff, tsamp=tsamp)
-    fil = FilReader(p)
+    frng = np.random.default_rng([case["seed"], 111])
+    nfiles = int(frng.choice([1, 1, 2, 3]))
+    cuts = sorted(frng.choice(np.arange(1, N), size=nfiles - 1, replace=False).tolist()) if nfiles > 1 else []
+    split = [b - a for a, b in zip([0] + cuts, cuts + [N])]
+    dd = os.path.join(ctx.tmp, "c11in")
+    os.makedirs(dd, exist_ok=True)
+    paths = sigfile.write_split(dd, X, nbits, split, fch1=fch1, foff=foff, tsamp=tsamp)
+    if nfiles > 1:
+        ctx.count("regime:multi_file_input")
+    fil = FilReader(paths, check_contiguity=False) if nfiles > 1 else FilReader(paths[0])
     dm = float(rng.choice([0.0, rng.uniform(0, 200)]))
     delays = np.asarray(fil.header.get_dmdelays(dm)).reshape(-1).astype(np.int32)
     md = int(delays.max())
     if md >= N // 4 or delays.min() < 0:
         dm, delays, md = 0.0, np.zeros(nch, dtype=np.int32), 0
     one = dict(case, geom={"N": N, "nchans": nch, "nbits": nbits, "tsamp": tsamp, "period": period, "nbins": nbins, "nints": nints, "nbands": nbands,
-                           "accel": accel, "dm": dm, "maxdelay": md})
+                           "accel": accel, "dm": dm, "maxdelay": md, "split": split})
     ts32, p32, a32 = np.float32(tsamp), np.float32(period), np.float32(accel)
     if accel:
         ctx.count("regime:accel!=0")
